@@ -285,10 +285,7 @@ func mutate(c c11EncCase) (c11EncCase, string, bool) {
 				return b, "", false
 			}
 			i := m.Index % n
-			old := cc.Prices[i].Price
-			if feeds && !cc.Prices[i].Stored {
-				old = 0
-			}
+			old := sourcePrices(c.Content)[i].Value // for feeds: what the store holds for that id (last write, 0 if none)
 			var nw uint64
 			if cc.Encoder == 1 {
 				nw = old + m.Delta
@@ -342,8 +339,8 @@ func mutate(c c11EncCase) (c11EncCase, string, bool) {
 			}
 			i := m.Index % (n - 1)
 			sa, sb := sourcePrices(c.Content)[i], sourcePrices(c.Content)[i+1]
-			if sa == sb {
-				return b, "", false
+			if sa == sb || (cc.Encoder != 1 && sa.SignalID == sb.SignalID && (sa.Value == 0) == (sb.Value == 0)) {
+				return b, "", false // (tick kind: two prices of one id may share a tick, the swap would be invisible by design)
 			}
 			cc.Prices[i], cc.Prices[i+1] = cc.Prices[i+1], cc.Prices[i]
 			// with duplicate ids the stored value is the last write: only accept if the source data really differs
